@@ -324,13 +324,18 @@ func sortStrings(s []string) {
 func mutants(rng *rand.Rand, d *decoder, seed, other []byte, full, headSweep bool, sample int) []mutant {
 	var ms []mutant
 	add := func(kind string, f func() []byte) { ms = append(ms, mutant{kind: kind, steps: []func() []byte{f}}) }
-	addLadder := func(kind string, o int, pats [][]byte, insert bool) {
+	// how: 0 overwrite at o, 1 insert at o, 2 cut: the valid prefix seed[:o], the pattern, end of input
+	// (the shortest input that carries this length prefix, hence the smallest allowance)
+	addLadder := func(kind string, o int, pats [][]byte, how int) {
 		m := mutant{kind: kind, ladder: true}
 		for _, p := range pats {
 			p := p
-			if insert {
+			switch how {
+			case 1:
 				m.steps = append(m.steps, func() []byte { return insertAt(seed, o, p) })
-			} else {
+			case 2:
+				m.steps = append(m.steps, func() []byte { return append(append([]byte{}, seed[:o]...), p...) })
+			default:
 				m.steps = append(m.steps, func() []byte { return overwrite(seed, o, p) })
 			}
 		}
@@ -341,7 +346,8 @@ func mutants(rng *rand.Rand, d *decoder, seed, other []byte, full, headSweep boo
 	L := len(seed)
 	if headSweep && d.codec == "binary" {
 		for o := 0; o < L && o < 64; o++ {
-			addLadder("length-bomb-head", o, headLadder, false)
+			addLadder("length-bomb-head", o, headLadder, 0)
+			addLadder("length-bomb-head-cut", o, headLadder, 2)
 		}
 	}
 	protected := len(ms)
@@ -377,7 +383,11 @@ func mutants(rng *rand.Rand, d *decoder, seed, other []byte, full, headSweep boo
 	if d.codec != "json" {
 		for _, o := range offs(exh) {
 			if d.codec == "binary" || rng.Intn(4) == 0 {
-				addLadder("length-bomb", o, ladder, false)
+				if rng.Intn(2) == 0 {
+					addLadder("length-bomb", o, ladder, 0)
+				} else {
+					addLadder("length-bomb-cut", o, ladder, 2)
+				}
 			}
 			pats := bombs
 			if d.codec == "rlp" {
@@ -415,7 +425,7 @@ func mutants(rng *rand.Rand, d *decoder, seed, other []byte, full, headSweep boo
 			p := rlpBombs[rng.Intn(len(rlpBombs))]
 			add("insert-bomb", func() []byte { return insertAt(seed, o, p) })
 		} else {
-			addLadder("insert-bomb", o, headLadder, true)
+			addLadder("insert-bomb", o, headLadder, 1)
 		}
 	}
 	for _, n := range []int{1, 2, 3, 5, 9, 17, 64, 300, 5000} {
@@ -492,6 +502,12 @@ type groupRec struct {
 }
 
 const hdrLen = 160
+
+// A shard gives up (its part of the list is then reported as not finished => inconclusive
+// unless violations make the run fail anyway) after this many process deaths / restarts,
+// or this many allocations above 16 MiB inside one process: only a tree whose decoders are
+// broadly unguarded gets there, and finishing the list on it would take hours.
+const maxBigEvents = 150
 
 // RLIMIT_AS of a child. A Go process maps about 1.2 GiB of address space at start; the
 // remaining ~0.8 GiB is far above anything a legitimate decode of the inputs used here
@@ -571,6 +587,7 @@ func childMain(args []string) int {
 	sample := lib.Pick(90, 200)
 	var ms1, ms2 runtime.MemStats
 	hdr := make([]byte, 0, hdrLen+64)
+	bigAllocs := 0
 	for j := fromJ; j < M; j++ {
 		g, d, seedNo, full := groupPlan(shard, nshards, j)
 		rng := lib.Rand("c18-robust-group", g)
@@ -674,6 +691,16 @@ func childMain(args []string) int {
 						needRestart = true // checked after this unit's verdicts
 					} else if delta > 16<<20 {
 						runtime.GC() // free the big block now so that the next one reuses its address space
+						if bigAllocs++; bigAllocs > maxBigEvents {
+							// decoders that allocate tens of MiB on thousands of inputs make the list
+							// unaffordable: stop this shard (the parent reports it as not finished)
+							rec.Units = unit
+							b, _ := json.Marshal(rec)
+							w.Write(b)
+							w.WriteByte('\n')
+							w.Flush()
+							return 76
+						}
 					}
 					if delta > bnd {
 						violated[li] = true
@@ -796,10 +823,18 @@ func runRobust(nshards int) {
 				break
 			}
 			h, data := readInputFile(inf)
+			if ee, ok := werr.(*exec.ExitError); ok && ee.ExitCode() == 76 {
+				results[s].incon = fmt.Sprintf("robust child %d stopped after more than %d allocations above 16 MiB (decoders too broadly unguarded to finish the list)", s, maxBigEvents)
+				break
+			}
 			if ee, ok := werr.(*exec.ExitError); ok && ee.ExitCode() == 75 && h != nil {
 				// voluntary restart after a huge (already reported) allocation
 				results[s].restarts++
 				fromJ, fromUnit = h.J, h.Unit
+				if results[s].restarts+results[s].ndeaths > maxBigEvents {
+					results[s].incon = fmt.Sprintf("robust child %d stopped after %d deaths and %d restarts after huge allocations", s, results[s].ndeaths, results[s].restarts)
+					break
+				}
 				continue
 			}
 			// the child died: the last logged input is the witness
@@ -843,8 +878,8 @@ func runRobust(nshards int) {
 				results[s].deaths = append(results[s].deaths, d)
 			}
 			restarts++
-			if h == nil || restarts > 20000 {
-				results[s].incon = fmt.Sprintf("robust child %d died %d times (last: %v); giving up on its shard", s, restarts, werr)
+			if h == nil || results[s].restarts+results[s].ndeaths > maxBigEvents {
+				results[s].incon = fmt.Sprintf("robust child %d stopped after %d deaths and %d restarts after huge allocations (last: %v)", s, results[s].ndeaths, results[s].restarts, werr)
 				break
 			}
 			fromJ, fromUnit = h.J, h.Unit // resume after the killing input
